@@ -22,6 +22,8 @@ pub struct SetSpec {
     pub loc_info: bool,
     pub fancy: bool,
     pub force: Option<bool>,
+    /// actions(false): no actions file is generated
+    pub noactions: bool,
 }
 
 impl Default for SetSpec {
@@ -42,6 +44,7 @@ impl Default for SetSpec {
             loc_info: false,
             fancy: false,
             force: None,
+            noactions: false,
         }
     }
 }
@@ -107,6 +110,9 @@ impl SetSpec {
         if let Some(f) = self.force {
             s = s.force(f);
         }
+        if self.noactions {
+            s = s.actions(false);
+        }
         s
     }
     pub fn grammar_order(&self) -> bool {
@@ -118,7 +124,7 @@ impl SetSpec {
     pub fn to_json(&self) -> Value {
         json!({"glr": self.glr, "table": self.table, "ps": self.ps, "pse": self.pse, "ms": self.ms, "lm": self.lm, "go": self.go,
                "partial": self.partial, "skip_ws": self.skip_ws, "builder": self.builder, "gen_table": self.gen_table,
-               "custom_lexer": self.custom_lexer, "loc_info": self.loc_info, "fancy": self.fancy, "force": self.force})
+               "custom_lexer": self.custom_lexer, "loc_info": self.loc_info, "fancy": self.fancy, "force": self.force, "noactions": self.noactions})
     }
     pub fn from_json(v: &Value) -> SetSpec {
         let b = |k: &str, d: bool| v.get(k).and_then(|x| x.as_bool()).unwrap_or(d);
@@ -140,6 +146,7 @@ impl SetSpec {
             loc_info: b("loc_info", false),
             fancy: b("fancy", false),
             force: ob("force"),
+            noactions: b("noactions", false),
         }
     }
 }
